@@ -61,7 +61,7 @@ Section Today.
       (exists c0 v0, In (rc_mode r, rc_index r) (map nh_entry (nh_init_scores nh_today c0 v0))) /\
       0 <= rc_index r < nh_len (nh_table nh_today (rc_mode r)).
   Proof.
-    intros E. destruct (nh_T_next ops a outs k c v E) as [a' [r [E' [_ [Hi [_ He]]]]]]. eauto.
+    intros E. destruct (nh_T_next ops a outs k c v E) as [a' [r [E' [_ [Hi [_ [_ He]]]]]]]. eauto.
   Qed.
 
   Lemma nh_T_roles_complementary ops a outs k c v :
@@ -99,7 +99,7 @@ Section Today.
   Lemma nh_T_responses a sid vm cm :
     nh_reachable nh_today a ->
     exists a' rv rc, nh_responses nh_today a sid vm cm = Some (a', rv, rc) /\
-                     (nh_instruction_pair sid vm cm rv rc \/ nh_error_pair vm cm rv rc).
+                     ((nh_instruction_pair sid vm cm rv rc /\ nh_resp_timing nh_today rv rc) \/ nh_error_pair vm cm rv rc).
   Proof.
     intros Hr. destruct (nh_responses_ok nh_today nh_T_ok a sid vm cm (nh_reachable_inv nh_today nh_T_ok a Hr))
       as [a' [rv [rc [E [_ H]]]]]. exists a', rv, rc. split; [exact E|tauto].
@@ -115,7 +115,7 @@ Section Today.
        r_err rv = NeNone /\ r_err rc = NeNone /\ r_sid rv = sid /\ r_sid rc = sid /\ r_mode rv = r_mode rc /\
        r_tid rv = vm_tid vm /\ r_tid rc = cm_tid cm).
   Proof.
-    intros Hr. destruct (nh_T_responses a sid vm cm Hr) as [a' [rv [rc [E [H|H]]]]]; exists a', rv, rc; (split; [exact E|]).
+    intros Hr. destruct (nh_T_responses a sid vm cm Hr) as [a' [rv [rc [E [[H Htm]|H]]]]]; exists a', rv, rc; (split; [exact E|]).
     - unfold nh_instruction_pair in H. tauto.
     - apply nh_error_pair_err in H. tauto.
   Qed.
@@ -127,7 +127,7 @@ Section Today.
        r_cands rv = nh_compact (cm_mapped cm) /\ r_assisted rv = nh_compact (cm_assisted cm) /\
        r_cands rc = nh_compact (vm_mapped vm) /\ r_assisted rc = nh_compact (vm_assisted vm)).
   Proof.
-    intros Hr. destruct (nh_T_responses a sid vm cm Hr) as [a' [rv [rc [E [H|H]]]]]; exists a', rv, rc; (split; [exact E|]).
+    intros Hr. destruct (nh_T_responses a sid vm cm Hr) as [a' [rv [rc [E [[H Htm]|H]]]]]; exists a', rv, rc; (split; [exact E|]).
     - unfold nh_instruction_pair in H. tauto.
     - apply nh_error_pair_err in H. tauto.
   Qed.
@@ -141,7 +141,7 @@ Section Today.
                      nh_classify (vm_mapped vm) (nh_parse_ips (vm_assisted vm)) = inl vf /\
                      nh_rule_prop (r_mode rv) cf vf (r_role rc) (r_role rv)).
   Proof.
-    intros Hr. destruct (nh_T_responses a sid vm cm Hr) as [a' [rv [rc [E [H|H]]]]]; exists a', rv, rc; (split; [exact E|]).
+    intros Hr. destruct (nh_T_responses a sid vm cm Hr) as [a' [rv [rc [E [[H Htm]|H]]]]]; exists a', rv, rc; (split; [exact E|]).
     - unfold nh_instruction_pair in H. intros _. split; [tauto|].
       destruct H as (_&_&_&_&_&_&_&_&_&_&_&_&_&_&_&_&_&_&_&cf&vf&H1&H2&H3).
       exists cf, vf. split; [exact H1|]. split; [exact H2|]. apply nh_rule_roles_prop. exact H3.
@@ -153,7 +153,7 @@ Section Today.
     exists a' rv rc, nh_responses nh_today a sid vm cm = Some (a', rv, rc) /\
       forall from to, In (from, to) (r_ranges rv ++ r_ranges rc) -> 1 <= from /\ from <= to /\ to <= 65535.
   Proof.
-    intros Hr. destruct (nh_T_responses a sid vm cm Hr) as [a' [rv [rc [E [H|H]]]]]; exists a', rv, rc; (split; [exact E|]).
+    intros Hr. destruct (nh_T_responses a sid vm cm Hr) as [a' [rv [rc [E [[H Htm]|H]]]]]; exists a', rv, rc; (split; [exact E|]).
     - destruct H as (_&_&_&_&_&_&_&_&_&_&_&_&_&_&H1&H2&_). intros from to Hin.
       apply in_app_or in Hin. rewrite Forall_forall in H1, H2.
       destruct Hin as [Hin|Hin]; [apply (H1 _ Hin)|apply (H2 _ Hin)].
@@ -175,8 +175,19 @@ Section Today.
        (2 <= length (cm_mapped cm))%nat /\ (2 <= length (vm_mapped vm))%nat /\
        forall x, In x (cm_mapped cm ++ vm_mapped vm) -> nh_addr_ok x = true).
   Proof.
-    intros Hr. destruct (nh_T_responses a sid vm cm Hr) as [a' [rv [rc [E [H|H]]]]]; exists a', rv, rc; (split; [exact E|]).
+    intros Hr. destruct (nh_T_responses a sid vm cm Hr) as [a' [rv [rc [E [[H Htm]|H]]]]]; exists a', rv, rc; (split; [exact E|]).
     - destruct H as (_&_&_&_&_&_&_&_&_&_&_&_&_&_&_&_&H1&H2&H3&_). intros _. rewrite Forall_forall in H1. tauto.
+    - apply nh_error_pair_err in H. tauto.
+  Qed.
+  (* the receiver is still listening when the sender starts: ReadTimeoutMs of the receiving side >= SendDelayMs of the
+     sending side + the server's stagger before the sender's response + nh_margin (3 s); the sender waits >= nh_margin *)
+  Lemma nh_T_receiver_still_listening a sid vm cm :
+    nh_reachable nh_today a ->
+    exists a' rv rc, nh_responses nh_today a sid vm cm = Some (a', rv, rc) /\
+      (r_err rv = NeNone \/ r_err rc = NeNone -> nh_resp_timing nh_today rv rc).
+  Proof.
+    intros Hr. destruct (nh_T_responses a sid vm cm Hr) as [a' [rv [rc [E [[H Htm]|H]]]]]; exists a', rv, rc; (split; [exact E|]).
+    - intros _. exact Htm.
     - apply nh_error_pair_err in H. tauto.
   Qed.
 End Today.
